@@ -3,6 +3,7 @@ package props
 import (
 	"fmt"
 	"math"
+	"sort"
 	"strings"
 	"testing"
 	"unicode"
@@ -115,6 +116,15 @@ func genC04Source(g *xast.G, c *evalCase, p *prepared) (*xast.Expr, string) {
 	return e, "node-set"
 }
 
+func sortedFuncKeys(m map[string]func(x *xast.Expr) *xast.Expr) []string {
+	var ks []string
+	for k := range m {
+		ks = append(ks, k)
+	}
+	sort.Strings(ks)
+	return ks
+}
+
 func TestC04(t *testing.T) {
 	runWitnesses(t, "C04")
 	nums := []string{"0", "1", "12", "0.5", ".5", "007", "1.50", "100", "3.0"}
@@ -129,8 +139,48 @@ func TestC04(t *testing.T) {
 		g := &xast.G{T: t, Env: xast.GenEnv{ElemNames: queryable(elems), AttrNames: queryable(attrs), PITargets: targets, Prefixes: prefixesOf(c.NS), Nums: nums, NodeVars: []string{"v"}}}
 		src, cls := genC04Source(g, c, p)
 		wraps := []string{"string", "number", "boolean", "notnot", "plus0", "concat", "andtrue", "neg", "strlen", "pred", "bare", "roundtrip"}
+		// the implicit conversion of every argument position of the core library
+		implicit := map[string]func(x *xast.Expr) *xast.Expr{
+			"contains#1":    func(x *xast.Expr) *xast.Expr { return xast.Call("contains", x, xast.Str("1")) },
+			"contains#2":    func(x *xast.Expr) *xast.Expr { return xast.Call("contains", xast.Str("a1b2 true NaN"), x) },
+			"starts-with#1": func(x *xast.Expr) *xast.Expr { return xast.Call("starts-with", x, xast.Str("1")) },
+			"starts-with#2": func(x *xast.Expr) *xast.Expr { return xast.Call("starts-with", xast.Str("12 true"), x) },
+			"substring#1":   func(x *xast.Expr) *xast.Expr { return xast.Call("substring", x, xast.Num("2")) },
+			"substring#2":   func(x *xast.Expr) *xast.Expr { return xast.Call("substring", xast.Str("abcdefghijklm"), x) },
+			"substring#3": func(x *xast.Expr) *xast.Expr {
+				return xast.Call("substring", xast.Str("abcdefghijklm"), xast.Num("2"), x)
+			},
+			"substring-before#1": func(x *xast.Expr) *xast.Expr { return xast.Call("substring-before", x, xast.Str("2")) },
+			"substring-before#2": func(x *xast.Expr) *xast.Expr { return xast.Call("substring-before", xast.Str("a1b2c12 true"), x) },
+			"substring-after#1":  func(x *xast.Expr) *xast.Expr { return xast.Call("substring-after", x, xast.Str("1")) },
+			"substring-after#2":  func(x *xast.Expr) *xast.Expr { return xast.Call("substring-after", xast.Str("a1b2c12 true"), x) },
+			"translate#1":        func(x *xast.Expr) *xast.Expr { return xast.Call("translate", x, xast.Str("12a"), xast.Str("xy")) },
+			"translate#2": func(x *xast.Expr) *xast.Expr {
+				return xast.Call("translate", xast.Str("a1b2c3 true"), x, xast.Str("XYZ"))
+			},
+			"translate#3":       func(x *xast.Expr) *xast.Expr { return xast.Call("translate", xast.Str("abcabc"), xast.Str("abc"), x) },
+			"normalize-space#1": func(x *xast.Expr) *xast.Expr { return xast.Call("normalize-space", x) },
+			"concat#3":          func(x *xast.Expr) *xast.Expr { return xast.Call("concat", xast.Str("<"), xast.Str("|"), x) },
+			"floor#1":           func(x *xast.Expr) *xast.Expr { return xast.Call("floor", x) },
+			"ceiling#1":         func(x *xast.Expr) *xast.Expr { return xast.Call("ceiling", x) },
+			"round#1":           func(x *xast.Expr) *xast.Expr { return xast.Call("round", x) },
+			"div#2":             func(x *xast.Expr) *xast.Expr { return xast.Bin("div", xast.Num("1"), x) },
+			"mod#1":             func(x *xast.Expr) *xast.Expr { return xast.Bin("mod", x, xast.Num("2")) },
+			"*#2":               func(x *xast.Expr) *xast.Expr { return xast.Bin("*", xast.Num("2"), x) },
+			"-#2":               func(x *xast.Expr) *xast.Expr { return xast.Bin("-", xast.Num("0"), x) },
+			"or#1":              func(x *xast.Expr) *xast.Expr { return xast.Bin("or", x, xast.Call("false")) },
+			"or#2":              func(x *xast.Expr) *xast.Expr { return xast.Bin("or", xast.Call("false"), x) },
+			"and#2":             func(x *xast.Expr) *xast.Expr { return xast.Bin("and", xast.Call("true"), x) },
+			"lang#1":            func(x *xast.Expr) *xast.Expr { return xast.Call("lang", x) },
+		}
+		for _, k := range sortedFuncKeys(implicit) {
+			wraps = append(wraps, k)
+		}
 		wrap = wraps[rapid.IntRange(0, len(wraps)-1).Draw(t, "wrap")]
 		var e *xast.Expr
+		if f, ok := implicit[wrap]; ok {
+			e = f(src)
+		}
 		switch wrap {
 		case "string", "number", "boolean":
 			e = xast.Call(wrap, src)
@@ -156,7 +206,9 @@ func TestC04(t *testing.T) {
 		case "roundtrip":
 			e = xast.Call("number", xast.Call("string", src))
 		default:
-			e = src
+			if e == nil {
+				e = src
+			}
 		}
 		c.Expr = e
 		c.Text = xast.Render(e, xast.RapidChooser{T: t}, drawStyle(t))
